@@ -54,7 +54,7 @@ def cond_of(method, header, body):
         # `else`, a `match` arm, a loop …: reached only under a condition we cannot name
         return "unknown"
     c = m.group(1)
-    g = r"(?:guard|g)"
+    g = r"\w+"
     if method == "record_ack" and re.fullmatch(r"file_index == " + g + r"\.current_file_index", c):
         return "fileMatches"
     if method == "record_ack" and re.fullmatch(r"capped > " + g + r"\.acked_offset", c):
@@ -92,21 +92,34 @@ def notify_entry(imp, method):
     return best, [s.group(1) for s in sites]
 
 
+class DangerousShape(Exception):
+    """A wait loop of a shape that is exactly what C12 is about (no unbounded `loop`, a wait outside it, a
+    `*_while` wait that re-tests a private predicate, a test hidden inside another `if`): not a fallback to
+    the defaults but the pessimistic fact `loop = []` (nothing is known to be tested), which no proof accepts."""
+
+
 def loop_order(imp, method, pred_re):
+    try:
+        return loop_order_(imp, method, pred_re)
+    except DangerousShape:
+        return [], False, False
+
+
+def loop_order_(imp, method, pred_re):
     body = fn_body(imp, method)
     m = re.search(r"\bloop\s*\{", body)
     if not m:
-        raise ExtractError(f"{method}: no `loop`")
+        raise DangerousShape(f"{method}: no `loop`")
     end = match_brace(body, m.end() - 1)
     lb = body[m.end():end - 1]
     # the wait must be inside the loop, and nowhere else
     if len(re.findall(r"\.\s*wait_timeout\s*\(", body)) != 1 or not re.search(r"\.\s*wait_timeout\s*\(", lb):
-        raise ExtractError(f"{method}: `wait_timeout` not (only) inside the loop")
+        raise DangerousShape(f"{method}: `wait_timeout` not (only) inside the loop")
     if re.search(r"\.\s*wait\s*\(|wait_while|wait_timeout_while", body):
-        raise ExtractError(f"{method}: other condvar wait form")
+        raise DangerousShape(f"{method}: other condvar wait form")
     n = norm(lb)
     forms = {
-        "cancel": r"if let Some\(reason\) = \w+\.cancelled\.clone\(\) \{ (?:[^{}]*; )?return [\w:]*\(?[\w:]*Cancelled\(reason\)\)?;? \}",
+        "cancel": r"if let Some\(\w+\) = \w+\.cancelled\.clone\(\) \{ (?:[^{}]*; )?return [\w:]*\(?[\w:]*Cancelled\(\w+\)\)?;? \}",
         "pred": pred_re,
         # any test that returns Timeout / any argument of the wait: WHICH test and WHICH argument is the
         # clock fact below
@@ -129,7 +142,7 @@ def loop_order(imp, method, pred_re):
             raise ExtractError(f"{method}: `{name}` not locatable")
         heads = enclosing_headers(lb, raw.start())
         if any(h != "" for h in heads):
-            raise ExtractError(f"{method}: `{name}` is nested in `{heads}`")
+            raise DangerousShape(f"{method}: `{name}` is nested in `{heads}`")
         scoped = scoped or bool(heads)
     # FACT: is the mutex held without a gap from the tests to `wait_timeout`?  Recognised as: exactly one
     # `.lock()` in the function, taken before the loop; no statement of the loop is in a scoped block; the
@@ -143,7 +156,7 @@ def loop_order(imp, method, pred_re):
     # inside the loop before the test `now >= deadline`, and the wait gets `deadline - now` (directly or via
     # `let timeout = deadline - now;`).  Every other form (a sticky `timed_out()` flag, a duration computed
     # once before the loop, …) is the pessimistic fact `false`.
-    mnow = re.search(r"let now = Instant::now\(\);", n)
+    mnow = re.search(r"let now = (?:std::time::)?Instant::now\(\);", n)
     arg = grp["park"]
     arg_ok = arg == "deadline - now" or (arg == "timeout" and re.search(r"let timeout = deadline - now;", n) is not None)
     # … and `deadline` itself must be the call's own: the `deadline: Instant` parameter (never re-bound), or the
@@ -157,9 +170,10 @@ def loop_order(imp, method, pred_re):
         own_deadline = not binds
     else:
         own_deadline = (re.search(r"\btimeout: Duration\b", params) is not None
-                        and binds == ["let deadline = Instant::now() + timeout;"]
-                        and nb.find("let deadline = Instant::now() + timeout;") < nb.find("loop"))
-    clock = (mnow is not None and mnow.start() < pos["deadline"] and grp["deadline"] == "now >= deadline" and arg_ok
+                        and len(binds) == 1
+                        and re.fullmatch(r"let deadline = (?:std::time::)?Instant::now\(\) \+ timeout;", binds[0]) is not None
+                        and nb.find(binds[0]) < nb.find("loop"))
+    clock = (mnow is not None and mnow.start() < pos["deadline"] and grp["deadline"] in ("now >= deadline", "deadline <= now") and arg_ok
              and len(re.findall(r"Instant::now\(\)", n)) == 1 and own_deadline
              and not re.search(r"\bdeadline\s*=[^=]", n))
     return [k for k, _ in sorted(pos.items(), key=lambda kv: kv[1])], atomic, clock
@@ -180,12 +194,12 @@ def extract():
             raise ExtractError(f"{method}: not exactly one lock region")
     facts["creditLoop"], facts["creditAtomic"], facts["creditClock"] = loop_order(
         imp, "wait_for_credit",
-        r"if in_flight == 0 \|\| [^{}]*window_bytes[^{}]*\{ (?:[^{}]*; )?return Ok\(\(\)\);? \}")
+        r"if \w+ == 0 \|\| [^{}]*window_bytes[^{}]*\{ (?:[^{}]*; )?return Ok\(\(\)\);? \}")
     facts["reconnectLoop"], facts["reconnectAtomic"], facts["reconnectClock"] = loop_order(
         imp, "wait_for_reconnect",
         r"if let Some\(pending\) = \w+\.pending_resume\.take\(\) \{ (?:[^{}]*; )?return [\w:]*ResumeReady\(pending\);? \}")
     cb = norm(fn_body(imp, "wait_for_credit"))
-    if not re.search(r"let in_flight = \w+\.sent_offset\.saturating_sub\(\w+\.acked_offset\);", cb):
+    if not re.search(r"let \w+ = \w+.sent_offset.saturating_sub\(\w+\.acked_offset\);", cb):
         raise ExtractError("wait_for_credit: in_flight is not sent_offset.saturating_sub(acked_offset)")
     return facts
 
